@@ -5,7 +5,7 @@ ENTRY = {
     "families": [fam("SQL", 400, 20000, opts={"quick": _OPTS, "thorough": dict(_OPTS, sizes="tiny,small,small,mid")})],
     "gen_items": [],
     "rule": "generated statements over generated catalogs (1-3 tables x 2-5 columns BIGINT/INTEGER/DOUBLE(dyadic)/VARCHAR/DATE/BOOLEAN, NULL density 0/10/50/100 %, "
-            "small domains, 0-60 rows in 1-4 batches), primary stratum rotating over filter, case, join, agg, distinct, setop, cte, values, gsets, subquery, sort_limit "
+            "small domains, 0-60 rows in 1-4 batches; two catalogs per run carry a table of ~1001-2049 resp. 8193-10001 rows in several batches: tag data:big), primary stratum rotating over filter, case, join, agg, distinct, setop, cte, values, gsets, subquery, sort_limit "
             "with the other strata mixed in; run through ExecutionContext::sql (single-batch and multi-batch registration alternate); oracle = Spec.acceptable on the engine's rows; "
             "an engine error is not a wrong answer (tag impl:err:*), a panic is; skipped when the reference reports overflow / division by zero / unsupported; "
             "non-trivial = engine answered and the reference answer is non-empty; distinct by sha256 of the canonical case. "
@@ -22,7 +22,7 @@ ENTRY = {
         "integer division / modulo, overflow, NaN / -0.0 / +-inf ordering are engine-defined: not generated (magnitudes are tracked) or skipped",
         "LIMIT / OFFSET below the top level only over an ORDER BY on all output columns",
     ],
-    "min_tags": {"s:filter": 1, "s:join": 1, "s:agg": 1, "s:setop": 1, "s:cte": 1, "s:values": 1, "s:gsets": 1, "s:subquery": 1, "s:sort_limit": 1, "s:distinct": 1, "s:case": 1, "impl:right": 100},
+    "min_tags": {"s:filter": 1, "s:join": 1, "s:agg": 1, "s:setop": 1, "s:cte": 1, "s:values": 1, "s:gsets": 1, "s:subquery": 1, "s:sort_limit": 1, "s:distinct": 1, "s:case": 1, "impl:right": 100, "data:big": 8},
     "manifest": {
         "category": "proof",
         "text": "Lean theorems about the oracle itself, for every plan / catalog / table: the executable bag comparison is exactly multiset equality (List.Perm) and an equivalence; for plans without top-level ORDER BY / LIMIT `acceptable` = 'is a permutation of Spec.run's answer', accepts the reference answer, is invariant under permutation of the engine's rows, and never accepts anything when the reference reports an error; LIMIT/OFFSET over an unordered input accepts the reference answer. Tie: generated SQL over all strata through ExecutionContext::sql judged by Spec.acceptable. C01_pipeline_refines_spec (engine model refines Spec for every plan) is pending the per-operator models of C02/C21-C28/C44 and is NOT claimed.",
